@@ -3,6 +3,7 @@ CONSTANTS
   MinWays = 0
   MaxWays = 3
   NKeys = 2
+  Snapshots = FALSE
 VIEW View
 ACTION_CONSTRAINT Emit
 INVARIANT TypeOK
@@ -10,4 +11,5 @@ INVARIANT LeastRecentFirst
 PROPERTY EvictIsLRU
 PROPERTY VisitIsMRU
 PROPERTY Independent
+PROPERTY RestoreExact
 CHECK_DEADLOCK FALSE
